@@ -247,6 +247,9 @@ def run_batch(rep, cases, rep_n, par_n, binary="bklgo", fresh=0):
         r = go.get(i)
         rep.case(c["steps"], True, sample={"steps": [list(s)[0] for s in c["steps"]], "runs": (r or {}).get("runs"), "impl": step_summary(r)})
         rep.count("impl:" + step_summary(r)[:50])
+        if r is not None and "race" in r:
+            bad.append((c, r, "the race detector reports a data race while the input is evaluated from several goroutines at once"))
+            continue
         if r is None or any(k in r for k in ("crash", "panic", "timeout", "oom")):
             rep.count("crash_or_timeout")  # C08's business; not a determinism verdict
             continue
@@ -275,11 +278,53 @@ def run_batch(rep, cases, rep_n, par_n, binary="bklgo", fresh=0):
     return bad
 
 
+def files_stage(rep, rng, n, binary="bklgo", rep_n=3, par_n=16):
+    """layer FILES through the readers of every format (YAML with anchors and aliases, some of them alias-heavy), loaded and
+    evaluated by several parsers at once in one process: the readers and the loader are part of "evaluation" too"""
+    import shutil
+    import fscheck
+    import formats
+    from common import mktemp_dir
+    from props import c01
+    root = mktemp_dir("verif-c09-files-")
+    try:
+        ops, metas = [], []
+        cs = c01.file_chain_cases(rng, n)
+        # alias-heavy YAML: one anchored list aliased a few hundred times (tens of thousands of nodes once expanded)
+        for k in range(3):
+            big = [rng.choice(["x", 1, True, "v%d" % j]) for j in range(300)]
+            huge = {"k%03d" % j: big for j in range(200 + 25 * k)}
+            doc = {"a_huge": huge, "x": huge, "y": {"in": huge}}       # ONE alias (`x: *id`) stands for all of it
+            cs.append({"layout": {"heavy.yaml": {"fmt": "yaml", "docs": [formats.share_equal(doc)]}}, "opts": {"inputs": ["heavy.yaml"]},
+                       "meta": {"kind": "alias-heavy"}})
+        for i, c in enumerate(cs):
+            d = os.path.join(root, "c%d" % i)
+            os.makedirs(d)
+            fscheck.materialise(d, c["layout"])
+            ops.append({"op": "files", "id": i, "dir": d, "inputs": [os.path.join(d, c["opts"]["inputs"][0])],
+                        "rep": rep_n, "par": par_n, "status_only_errors": True})
+        go = run_go(ops, binary=binary, timeout_ms=120000)
+        bad = []
+        for i, c in enumerate(cs):
+            r = go.get(i)
+            rep.case(["files", c["layout"]], True)
+            rep.count(f"files:{c['meta']['kind']}:{'nondet' if r and 'nondet' in r else 'race' if r and 'race' in r else 'same'}")
+            case = {"files": {"layout": c["layout"], "input": c["opts"]["inputs"][0]}}
+            if r is not None and "race" in r:
+                bad.append((case, r, "the race detector reports a data race while layer files are loaded and evaluated by several parsers at once"))
+            elif r is not None and "nondet" in r:
+                bad.append((case, {"mode": r.get("mode"), "nondet": str(r["nondet"])[:1500]}, f"{r.get('mode')} loads of the same layer files differ"))
+        return bad
+    finally:
+        shutil.rmtree(root, ignore_errors=True)
+
+
 def run(rep):
     rep.rule = ("inputs of the generators of C01/C06/C07/C10/C11/C12/C13/C14/C19 plus many-key maps with unescape collisions, "
                 "host-internal references and multiple outputs; each evaluated (MergeDocument, Documents, OutputDocuments, Output bytes) "
                 "20x sequentially and from 32 goroutines at once in one process (results must serialise identically; failures are "
-                "compared by status), a sample again in fresh processes; thorough tier repeats under a -race build; "
+                "compared by status), a sample again in fresh processes; layer FILES in every format (YAML with anchors / aliases, some alias-heavy) "
+                "loaded and evaluated by 16 parsers at once; thorough tier repeats both under a -race build and READS THE RACE DETECTOR'S VERDICT; "
                 "every case is non-trivial (all are multi-run comparisons)")
     rep.proof, rep.broken = proof_step(PID)
     rng = random.Random(rep.seed)
@@ -288,9 +333,11 @@ def run(rep):
     bad = run_batch(rep, cases, 20, 32, fresh=40 if rep.tier == "quick" else 400)
     bad += env_flip_stage(rep, rng, 30 if rep.tier == "quick" else 600)
     bad += leak_stage(rep, rng, 25 if rep.tier == "quick" else 500)
+    bad += files_stage(rep, random.Random(rep.seed + 31), 60 if rep.tier == "quick" else 1500)
     if rep.tier == "thorough" and os.path.exists(os.path.join(BIN, "bklgo-race")):
         sub = cases[: 4000]
         bad += run_batch(rep, sub, 3, 16, binary="bklgo-race")
+        bad += files_stage(rep, random.Random(rep.seed + 32), 300, binary="bklgo-race")
         rep.extra["race_build_cases"] = len(sub)
     for c, r, d in bad[:4]:
         rep.disagreements_checked += 1
@@ -303,6 +350,22 @@ def run(rep):
 
 def replay(rep, payload):
     c = payload["case"]
+    if "files" in c:
+        import shutil
+        import fscheck
+        from common import mktemp_dir
+        root = mktemp_dir("verif-c09-files-")
+        try:
+            fscheck.materialise(root, c["files"]["layout"])
+            bad = 0
+            for binary in ["bklgo"] + (["bklgo-race"] if os.path.exists(os.path.join(BIN, "bklgo-race")) else []):
+                r = run_go([{"op": "files", "id": 0, "dir": root, "inputs": [os.path.join(root, c["files"]["input"])],
+                             "rep": 5, "par": 32, "status_only_errors": True}], binary=binary, timeout_ms=120000).get(0) or {}
+                print(binary, {k: str(v)[:400] for k, v in r.items() if k in ("nondet", "mode", "race", "stderr", "runs")})
+                bad += 1 if ("nondet" in r or "race" in r) else 0
+            return 1 if bad else 0
+        finally:
+            shutil.rmtree(root, ignore_errors=True)
     if "envflip" in c:
         res = env_flip_group(c["envflip"]["doc"], c["envflip"]["envs"])
         for r in res:
